@@ -259,7 +259,7 @@ func TestCheck(t *testing.T) {
 
 	// Phase 1: deterministic lock-leak probes.
 	timed(r, "vfs-probe", func() {
-		nVFS := r.Pick(240, 6400)
+		nVFS := r.Pick(320, 6400)
 		parallel(8, nVFS, func(i int) { runVFSProbeCase(r, rc, i) })
 	})
 	timed(r, "small-object-probes", func() { runSmallObjectProbes(r, rc) })
